@@ -85,7 +85,12 @@ func (p *Pubrec) Unpack(r io.Reader) error {
 		if !ValidateCode(PUBREC, p.Code) {
 			return codes.ErrProtocol
 		}
-		return p.Properties.Unpack(bufr, PUBREC)
+		if err := p.Properties.Unpack(bufr, PUBREC); err != nil {
+			return err
+		}
+	}
+	if bufr.Len() != 0 { // bytes left over inside the remaining length
+		return codes.ErrMalformed
 	}
 	return nil
 
